@@ -46,6 +46,7 @@ type netOpts struct {
 	skipA, skipB   int // number of dummy processes spawned first on each node (to reach particular pid residues)
 	optA, optB     func(o *gen.NodeOptions)
 	isA            bool
+	atomMapA       map[gen.Atom]gen.Atom // route.AtomMapping of the initiator (node A) for this connection
 }
 
 func startNetNode(name string, o netOpts) *node {
@@ -74,13 +75,14 @@ type linkEnds struct {
 }
 
 type NetWorld struct {
-	ex     *vsched.Exec
-	a, b   *World
-	links  []*linkEnds
-	pa, pb gen.Connection
-	id     string
-	Check  func()
-	out    []string
+	atomMapA map[gen.Atom]gen.Atom
+	ex       *vsched.Exec
+	a, b     *World
+	links    []*linkEnds
+	pa, pb   gen.Connection
+	id       string
+	Check    func()
+	out      []string
 }
 
 func (nw *NetWorld) Out(format string, a ...any) { nw.out = append(nw.out, fmt.Sprintf(format, a...)) }
@@ -99,6 +101,16 @@ func (nw *NetWorld) connect() {
 		if err != nil {
 			ex.Fail("handshake-failed", "start: %v", err)
 			return
+		}
+		if nw.atomMapA != nil { // as network.connect merges route.AtomMapping into the handshake result
+			mapping := map[gen.Atom]gen.Atom{}
+			for k, v := range nw.atomMapA {
+				mapping[k] = v
+			}
+			for k, v := range res.AtomMapping {
+				mapping[k] = v
+			}
+			res.AtomMapping = mapping
 		}
 		pc, err := pr.NewConnection(a, res, createLog(gen.LogLevelDisabled, a.dolog))
 		if err != nil {
@@ -241,7 +253,7 @@ func (nw *NetWorld) addLink() *linkEnds {
 // netBody: two fresh nodes per execution, build, run, oracle, tear-down
 func netBody(o netOpts, build func(nw *NetWorld)) func(ex *vsched.Exec) string {
 	return func(ex *vsched.Exec) string {
-		nw := &NetWorld{ex: ex}
+		nw := &NetWorld{ex: ex, atomMapA: o.atomMapA}
 		na := startNetNode("a@localhost", netOpts{optA: o.optA, isA: true})
 		// the nodes are not started within the same second: their incarnation stamps (start time in
 		// seconds) differ, as they do for any two nodes outside a test
